@@ -60,6 +60,11 @@ pub fn run(k: &str, c: &Value) -> Value {
             let a = Arc2::three_points(q0, q1, q2);
             arcv(&a, &fxs(&c["fs"]))
         }
+        "c11.arcpa" => {
+            // an arc given by centre, radius, a point marking the start direction, and the sweep
+            let a = Arc2::circle_point_angle(Point2::new(fx(&c["cx"]), fx(&c["cy"])), fx(&c["r"]), p2(&c["p"]), fx(&c["a"]));
+            arcv(&a, &fxs(&c["fs"]))
+        }
         "c11.arc" => {
             let a = Arc2::circle_angles(Point2::new(fx(&c["cx"]), fx(&c["cy"])), fx(&c["r"]), fx(&c["a0"]), fx(&c["a"]));
             arcv(&a, &fxs(&c["fs"]))
